@@ -516,7 +516,7 @@ pub fn run(ctx: &Ctx) {
         w[32..].copy_from_slice(&fb[(i + 5) % fb.len()]);
         inits.push(RK { name: format!("from_uniform_bytes#{}", i), pt: ris::one_way_map(&w), real: RistrettoPoint::from_uniform_bytes(&w) });
     }
-    let depth = if quick { 2 } else { 3 };
+    let depth = 3;
     ctx.bound("machine_depth", json!(depth));
     ctx.bound("machine_pool", json!(pool.len()));
     ctx.bound("machine_inits", json!(inits.len()));
